@@ -214,11 +214,17 @@ def run_random(res, spec_, rng):
     for s in range(spec_["n_seq"]):
         n = rng.randint(2, 8)
         p = api.Project()
+        from rv.modules import MODULE_CLASSES
+        classes = [c for k, c in sorted(MODULE_CLASSES.items()) if k != "Output"]
         for _ in range(n - 1):
             if rng.random() < 0.1:
                 p.attach_module(None)
             else:
-                p.attach_module(api.m.Amplifier(), loading=True)
+                # any module type in its freshly constructed state (an empty Sampler, a MetaModule with an empty project ...):
+                # links do not depend on what kind of module sits at either end
+                cls = rng.choice(classes) if rng.random() < 0.6 else api.m.Amplifier
+                p.attach_module(cls(), loading=True)
+                res.seen("module_types_in_graphs", cls.__name__)
         live = [i for i, m in enumerate(p.modules) if m is not None]
         history = []
         shape = rng.choice(("random", "fan-in", "fan-out", "cycle", "holes"))
